@@ -60,8 +60,21 @@ def doc_v2(guid):
     return {"version": "2.0", "enabled": True, "guid": guid, "rules": {"wireserver": V2_ITEM, "imds": None, "hostga": None}}
 
 
-def P(status_ok=True, acq=0, att=0, rotate=False, guid="latch", store_fail=None):
-    return {"status_ok": status_ok, "acq": acq, "att": att, "rotate": rotate, "guid": guid, "store_fail": store_fail}
+def P(status_ok=True, acq=0, att=0, rotate=False, guid="latch", store_fail=None, local_fail=False):
+    return {"status_ok": status_ok, "acq": acq, "att": att, "rotate": rotate, "guid": guid, "store_fail": store_fail,
+            "local_fail": local_fail}
+
+
+SHIM = [None]       # path of the built tools/c08_openfail.c (LD_PRELOAD), set by run()
+
+
+def scn_env(scn):
+    """transient local read fault: the first read-only open of <guid>.key fails (EMFILE / EIO), the file is intact"""
+    ff = scn.get("fail_open")
+    if not ff:
+        return None
+    return {"LD_PRELOAD": SHIM[0], "C08_FAIL_OPEN_SUFFIX": "/" + ff["guid"] + ".key", "C08_FAIL_OPEN_COUNT": "1",
+            "C08_FAIL_OPEN_ERRNO": str(ff["errno"])}
 
 
 def scenarios():
@@ -84,6 +97,11 @@ def scenarios():
               "polls": [P(guid=G[4])]})
     s.append({"name": "rename-fails-then-retry", "init": {}, "issued": 0, "latched": None, "keys": k, "doc": "v1",
               "polls": [P(store_fail="rename"), P()], "strace_extra": ["-e", "inject=rename:error=EIO:when=1"], "extra_trace": "rename", "skip_classes": ["rename"]})
+    # transient failure of the look-up of an intact, latched key file (EMFILE / EIO on the open), then a healthy restart
+    s.append({"name": "transient-read-error-host-issues-nothing", "init": {G[0] + ".key": full0}, "issued": 1, "latched": G[0], "keys": k,
+              "doc": "v1", "polls": [P(local_fail=True, acq=2)], "fail_open": {"guid": G[0], "errno": 24}})
+    s.append({"name": "transient-read-error-then-relatch", "init": {G[0] + ".key": full0}, "issued": 1, "latched": G[0], "keys": k,
+              "doc": "v1", "polls": [P(local_fail=True)], "fail_open": {"guid": G[0], "errno": 5}})
     for x in s:
         x["guids"] = sorted({kk["guid"] for kk in x["keys"][:len(x["polls"]) + x["issued"] + 2]})
         x["paths"] = [g + ext for g in x["guids"] for ext in (".key", ".tmp")]
@@ -188,7 +206,7 @@ def first_process(scn, binary, root, cls, n, count_file=None):
     for cfg in scn["polls"]:
         m.release(host.step(dict(cfg)))
     k = len(scn["polls"])
-    drv = kkdrv.Driver(binary, wrapper=strace_args(scn, key_dir, cls, n, count_file or "/dev/null"))
+    drv = kkdrv.Driver(binary, wrapper=strace_args(scn, key_dir, cls, n, count_file or "/dev/null"), env=scn_env(scn))
     killed, dump = False, None
     try:
         drv.send({"cmd": "start", "base_url": m.base_url, "key_dir": key_dir, "log_dir": log_dir, "interval_ms": 10})
@@ -255,7 +273,7 @@ def order_run(scn, binary, root):
         m.release(host.step(dict(cfg)))
     k = len(scn["polls"])
     wrapper = ["strace", "-f", "-y", "-s", "160", "-o", of, "-e", "trace=openat,write,read,rename,statx,writev"] + scn.get("strace_extra", [])
-    drv = kkdrv.Driver(binary, wrapper=wrapper)
+    drv = kkdrv.Driver(binary, wrapper=wrapper, env=scn_env(scn))
     try:
         drv.cmd({"cmd": "start", "base_url": m.base_url, "key_dir": key_dir, "log_dir": log_dir, "interval_ms": 10})
         if not m.wait_status(k + 1, timeout=60):
@@ -336,7 +354,7 @@ def slow_store_run(scn, binary, root):
     for pth in scn["paths"]:
         if pth.endswith(".tmp"):
             wrapper += ["-P", os.path.join(key_dir, pth)]
-    drv = kkdrv.Driver(binary, wrapper=wrapper + scn.get("strace_extra", []))
+    drv = kkdrv.Driver(binary, wrapper=wrapper + scn.get("strace_extra", []), env=scn_env(scn))
     dump = None
     try:
         drv.cmd({"cmd": "start", "base_url": m.base_url, "key_dir": key_dir, "log_dir": log_dir, "interval_ms": 10})
@@ -445,8 +463,9 @@ def coq_hscript(scn, cfg, items):
     if cfg["store_fail"] == "rename":
         sf = "(Some (N.to_nat 1000000))"         # clipped to "everything but the rename"
     return ("{| hs_rotate := %s; hs_status_ok := %s; hs_doc := %s; hs_guid := %s; hs_keys := %s; hs_acq := %d%%N; "
-            "hs_store := %s; hs_att := %d%%N |}" % (vplib.cbool(cfg["rotate"]), vplib.cbool(cfg["status_ok"]), docf, guid,
-                                                    clist([kkdrv.coq_key(k) for k in scn["keys"]], "key"), cfg["acq"], sf, cfg["att"]))
+            "hs_store := %s; hs_att := %d%%N; hs_local_fail := %s |}" % (vplib.cbool(cfg["rotate"]), vplib.cbool(cfg["status_ok"]), docf, guid,
+                                                    clist([kkdrv.coq_key(k) for k in scn["keys"]], "key"), cfg["acq"], sf, cfg["att"],
+                                                    vplib.cbool(cfg.get("local_fail", False))))
 
 
 def coq_scenario_parts(scn, items):
@@ -520,6 +539,8 @@ def run(ctx):
     ctx.log("proofs:", proofs_ok, detail[:200])
     bins = vplib.cargo_build(ctx, "harness", ["c09"])
     binary = kkdrv.install_binary(ctx, bins["c09"])
+    SHIM[0] = os.path.join(ctx.scratch, "c08_openfail.so")
+    vplib.sh(["clang", "-shared", "-fPIC", "-O1", "-o", SHIM[0], os.path.join(vplib.VERIF, "tools", "c08_openfail.c"), "-ldl"], check=True)
     rng = ctx.rng
     scns = scenarios()
     root = os.path.join(ctx.scratch, "c08")
@@ -785,7 +806,7 @@ def run(ctx):
         "evaluations": n_killed + len(scns) + codec_cases,
         "distinct_nontrivial": sum(len(v) for v in matched_states.values()),
         "traces_validated_against_impl": len(scns) - len({d["case"].get("scenario") for d in disagreements if isinstance(d.get("case"), dict) and d["case"].get("scenario")}),
-        "rule": "12 scenarios (fresh latch v1.0 / v2.0, restart with key, rotation (latch dropped / other guid named), unreadable local key, foreign guid, acquire answer lost, "
+        "rule": "14 scenarios (transient EMFILE / EIO on the look-up of an intact latched key file (LD_PRELOAD shim), then healthy restart; fresh latch v1.0 / v2.0, restart with key, rotation (latch dropped / other guid named), unreadable local key, foreign guid, acquire answer lost, "
                 "attest answer lost, attest refused, status error, rename fails) x SIGKILL on entering the N-th call of each of "
                 "openat/write/rename/read/statx on the key files and socket/connect/writev/recvfrom/shutdown (%s), then restart on the "
                 "surviving directory; the observed (key directory, host latch, issued count, request log) must be one of the model's "
@@ -804,6 +825,7 @@ def run(ctx):
         "guids are plain file names (non-empty, no '.', '/'); the .encrypted lookup that precedes the .key lookup is a no-op on Linux",
         "Model.decode is exact on the image of Model.encode and its prefixes; other JSON texts are outside the model",
         "the host of Model/KeyStore.v (issues on acquire, latches on attest, reports its latch) is the mock's behaviour",
+        "transient local read faults are injected by tools/c08_openfail.c (LD_PRELOAD: the first read-only open of <guid>.key fails)",
     ]
     for name in kkdrv.pinned_consts():
         ctx.assumptions.append("constant %s not located in the source: pinned default used, tied by the correspondence run only" % name)
